@@ -21,7 +21,8 @@ RULE = ("Hypothesis draws (n in 4..120 quick / 4..400 thorough with extra mass o
         "vs that exact solution: forward error <= 1e-6 when kappa_2 <= 3e8, <= 64 kappa u always, normwise backward "
         "error <= 2e-14 always. Non-trivial: a zero or non-unit weight, or n <= 6, or lambda outside [1e-2, 1e3]; "
         "distinct by content hash. "
-        " Added after the fourth seeded round: Lambda reaches the core as float, Python int, numpy int64 or float32; a weight class with one long zero-weight run (half the series or more) and lambda in 1e-6..1e-3 reaches the smallest pivots.")
+        " Added after the fourth seeded round: Lambda reaches the core as float, Python int, numpy int64 or float32; a weight class with one long zero-weight run (half the series or more) and lambda in 1e-6..1e-3 reaches the smallest pivots. "
+        " Added after the fifth seeded round: y and w also in integer / bool / float32 dtypes; fill values (1e20 .. float64 max) at zero-weight cells.")
 ASSUME = ["Python Fractions and numpy.linalg.cond are correct",
           "the float64 clause is decided relative to conditioning: the literal 1e-6 is demanded only for kappa_2 <= 3e8 "
           "(beyond that no float64 algorithm attains it; see DESIGN 2.5 / C01)"]
